@@ -838,6 +838,175 @@ def stream_molecule(ctx):
     return s
 
 
+# ---------------------------------------------------------------- stream 4: MolecularData lazy-property histories
+
+LAZY = {'canonical_orbitals': 2, 'overlap_integrals': 2, 'one_body_integrals': 2, 'two_body_integrals': 4, 'cisd_one_rdm': 2,
+        'cisd_two_rdm': 4, 'fci_one_rdm': 2, 'fci_two_rdm': 4, 'ccsd_single_amps': 2, 'ccsd_double_amps': 4}
+
+
+def stream_mol_histories(ctx):
+    """(S) state shared across MolecularData objects through the lazily loaded properties: histories of
+    new / read / assign / save / external delete / fresh load / in-place mutation over two file names and several objects
+    (also objects sharing one file name), for every lazy attribute.  Expected values come from an abstract model
+    (file name -> stored arrays; per object: the arrays it was assigned or has read) and from direct h5py reads of the
+    files, never from the library."""
+    import h5py
+    import numpy
+    from openfermion.chem import MolecularData
+    s = Stream('molecular-data-histories', 'histories of MolecularData objects over a small file-system model: a lazy property read before '
+               'any file exists, assign + save, fresh load, external delete followed by the first save of a different record, overwrite '
+               'of an existing file, two objects sharing one file name with interleaved reads / saves, in-place mutation of a returned '
+               'array; for every lazily loaded attribute; every read is compared with the abstract model and every file with a direct '
+               'h5py read')
+    rng = rng_for(ctx.seed, 'c20-molhist')
+    base = tempfile.mkdtemp(prefix='ofv_c20h_', dir=os.environ.get('TMPDIR'))
+    geom = [('H', (0.0, 0.0, 0.0)), ('H', (0.0, 0.0, 0.7414))]
+    counter = [0]
+
+    def arr(attr):
+        counter[0] += 1
+        n = 2
+        return (numpy.arange(n ** LAZY[attr], dtype=float).reshape((n,) * LAZY[attr]) + 100.0 * counter[0]) / 8.0
+
+    def h5_read(path, attr):
+        with h5py.File(path + '.hdf5', 'r') as f:
+            d = f[attr][...]
+        return None if d.dtype == numpy.bool_ else numpy.array(d)
+
+    def same(a, b):
+        if a is None or b is None:
+            return a is None and b is None
+        return numpy.array_equal(numpy.asarray(a), numpy.asarray(b))
+
+    def run(ops, label):
+        """ops: ('new', obj, fname) ('read', obj, attr) ('assign', obj, attr) ('save', obj) ('delete', fname) ('fresh', fname)
+        ('mutate', obj, attr)"""
+        d = tempfile.mkdtemp(prefix='h', dir=base)
+        files = {}          # fname -> {attr: array | None}
+        objs = {}           # obj -> [MolecularData, fname, {attr: array | None}]
+        case = {'scenario': label, 'ops': [list(map(str, o)) for o in ops]}
+        s.case(case)
+        s.count('scenario:' + label.split(':')[0])
+        try:
+            for k, op in enumerate(ops):
+                kind = op[0]
+                if kind == 'new':
+                    _, o, fn = op
+                    objs[o] = [MolecularData(geom, 'sto-3g', 1, filename=os.path.join(d, fn)), fn, {a: None for a in LAZY}]
+                elif kind == 'read':
+                    _, o, a = op
+                    m, fn, cache = objs[o]
+                    if cache[a] is None and fn in files and files[fn][a] is not None:
+                        cache[a] = numpy.array(files[fn][a])
+                    got = getattr(m, a)
+                    s.count('oracle:read')
+                    if not same(got, cache[a]):
+                        s.violate('a lazily loaded MolecularData property returns neither the object\'s own value nor the file content', case,
+                                  {'step': k, 'op': list(map(str, op)), 'got': repr(got)[:200], 'expected': repr(cache[a])[:200]})
+                        return
+                elif kind == 'assign':
+                    _, o, a = op
+                    v = arr(a)
+                    setattr(objs[o][0], a, v)
+                    objs[o][2][a] = v
+                elif kind == 'mutate':
+                    _, o, a = op
+                    m, fn, cache = objs[o]
+                    if cache[a] is None and fn in files and files[fn][a] is not None:
+                        cache[a] = numpy.array(files[fn][a])
+                    got = getattr(m, a)
+                    if got is not None:
+                        got += 1000.0                      # in place: the object keeps what it handed out
+                        cache[a] = numpy.array(got)
+                elif kind == 'save':
+                    _, o = op
+                    m, fn, cache = objs[o]
+                    for a in LAZY:                          # save() reads every property: an unset one is taken from the existing file
+                        if cache[a] is None and fn in files and files[fn][a] is not None:
+                            cache[a] = numpy.array(files[fn][a])
+                    m.save()
+                    files[fn] = {a: (None if cache[a] is None else numpy.array(cache[a])) for a in LAZY}
+                    for a in LAZY:
+                        s.count('oracle:h5py')
+                        raw = h5_read(os.path.join(d, fn), a)
+                        if not same(raw, files[fn][a]):
+                            s.violate('MolecularData.save() did not write the object\'s arrays (direct h5py read)', case,
+                                      {'step': k, 'attribute': a, 'file': repr(raw)[:200], 'expected': repr(files[fn][a])[:200]})
+                            return
+                elif kind == 'delete':
+                    _, fn = op
+                    if fn in files:
+                        os.remove(os.path.join(d, fn) + '.hdf5')
+                        del files[fn]
+                elif kind == 'fresh':
+                    _, fn = op
+                    if fn not in files:
+                        continue
+                    m = MolecularData(filename=os.path.join(d, fn))
+                    for a in LAZY:
+                        s.count('oracle:fresh')
+                        got = getattr(m, a)
+                        raw = h5_read(os.path.join(d, fn), a)
+                        if not same(got, files[fn][a]) or not same(got, raw):
+                            s.violate('a fresh MolecularData(filename=...) does not return the arrays stored in the file', case,
+                                      {'step': k, 'attribute': a, 'got': repr(got)[:200], 'file(h5py)': repr(raw)[:200],
+                                       'model': repr(files[fn][a])[:200]})
+                            return
+                    if sorted(os.listdir(d)) != sorted(f_ + '.hdf5' for f_ in files):
+                        s.violate('the directory does not hold exactly the saved files', case, {'listing': sorted(os.listdir(d))})
+                        return
+        except Exception as e:  # noqa: BLE001
+            s.violate('a MolecularData history raised', case, repr(e))
+        finally:
+            shutil.rmtree(d, ignore_errors=True)
+
+    try:
+        for a in LAZY:
+            every = [('assign', 'x', b) for b in LAZY]
+            # (1) read before any file exists, then assign + save, fresh load
+            run([('new', 'x', 'm'), ('read', 'x', a)] + every + [('save', 'x'), ('fresh', 'm'), ('read', 'x', a)], '1 read-before-save:' + a)
+            # (2) save A, load, external delete, first save of a different record B under the same name
+            run([('new', 'x', 'm')] + every + [('save', 'x'), ('fresh', 'm'), ('delete', 'm'), ('new', 'y', 'm'), ('read', 'y', a)]
+                + [('assign', 'y', b) for b in LAZY] + [('save', 'y'), ('fresh', 'm')], '2 delete-then-first-save:' + a)
+            # (3) save A, load, overwrite with B (existing file), load
+            run([('new', 'x', 'm')] + every + [('save', 'x'), ('fresh', 'm'), ('new', 'y', 'm'), ('assign', 'y', a), ('save', 'y'),
+                                               ('fresh', 'm'), ('read', 'x', a)], '3 overwrite-existing:' + a)
+            # (4) two objects sharing one file name, interleaved reads / saves
+            run([('new', 'x', 'm'), ('new', 'y', 'm'), ('read', 'y', a), ('assign', 'x', a), ('save', 'x'), ('read', 'y', a),
+                 ('assign', 'y', a), ('save', 'y'), ('read', 'x', a), ('fresh', 'm'), ('new', 'z', 'm'), ('read', 'z', a)],
+                '4 shared-file-name:' + a)
+            # (5) arrays handed out: mutate in place, the file content must win for a fresh object
+            run([('new', 'x', 'm')] + every + [('save', 'x'), ('new', 'y', 'm'), ('mutate', 'y', a), ('fresh', 'm'), ('read', 'y', a),
+                                               ('new', 'z', 'n'), ('read', 'z', a), ('fresh', 'm')], '5 in-place-mutation:' + a)
+        # random histories
+        attrs = list(LAZY)
+        for h in range(budget(ctx.tier, 40, 400) if not ctx.drift else 150):
+            ops, live = [], []
+            for _ in range(rng.randint(4, 14)):
+                r = rng.random()
+                if not live or r < 0.15:
+                    o = 'o%d' % len(live)
+                    live.append(o)
+                    ops.append(('new', o, rng.choice(['m', 'n'])))
+                elif r < 0.40:
+                    ops.append(('read', rng.choice(live), rng.choice(attrs)))
+                elif r < 0.58:
+                    ops.append(('assign', rng.choice(live), rng.choice(attrs)))
+                elif r < 0.74:
+                    ops.append(('save', rng.choice(live)))
+                elif r < 0.82:
+                    ops.append(('delete', rng.choice(['m', 'n'])))
+                elif r < 0.94:
+                    ops.append(('fresh', rng.choice(['m', 'n'])))
+                else:
+                    ops.append(('mutate', rng.choice(live), rng.choice(attrs)))
+            ops += [('fresh', 'm'), ('fresh', 'n')]
+            run(ops, 'random')
+    finally:
+        shutil.rmtree(base, ignore_errors=True)
+    return s
+
+
 def classify(v):
     return None
 
@@ -970,7 +1139,7 @@ def replay(ctx, payload):
         return not stream_text(ctx, only_ops=[(case['cls'], op)]).violations
     if stream == 'file-histories' and 'steps' in case:
         return not history_violations(ctx, case['steps'], case.get('types'))
-    runner = {'file-histories': stream_files, 'molecular-data': stream_molecule}.get(stream)
+    runner = {'file-histories': stream_files, 'molecular-data': stream_molecule, 'molecular-data-histories': stream_mol_histories}.get(stream)
     if runner is None:
         return None
     for drift in (False, True):
@@ -983,7 +1152,7 @@ def replay(ctx, payload):
 
 def run(ctx):
     FLOAT_MODEL['checked'], FLOAT_MODEL['bad'] = 0, []
-    streams = [stream_text(ctx), stream_files(ctx), stream_molecule(ctx)]
+    streams = [stream_text(ctx), stream_files(ctx), stream_molecule(ctx), stream_mol_histories(ctx)]
     streams[0].count('float() on integer literals vs the Lean model (hypothesis of coef_contract_int)', FLOAT_MODEL['checked'])
     for k, py, m in FLOAT_MODEL['bad']:
         streams[0].disagree('float(s) on an integer literal', {'s': k}, py, m)
